@@ -115,7 +115,7 @@ def istr(I, n):
     t = _ISTR(n)
     key = ('istr', n.get_id())
     if key not in I.p.ghost:
-        I.p.ghost[key] = True
+        I.p.ghost[key] = n     # pins the term (z3 reuses ids)
         I.p.assume(z3.Implies(n >= 0, z3.And(
             _SINT(t) == n,
             _ISDIG(t),
@@ -178,7 +178,7 @@ def format_int_0w(I, v, width):
 def note_padded(I, t, n):
     key = ('pad', t.get_id())
     if key not in I.p.ghost:
-        I.p.ghost[key] = True
+        I.p.ghost[key] = t     # pins the term (z3 reuses ids)
         I.p.assume(z3.And(_SINT(t) == n, _ISDIG(t)))
 
 
@@ -231,7 +231,7 @@ def real_str(I, t):
     s = _RSTR(t)
     key = ('rstr', t.get_id())
     if key not in I.p.ghost:
-        I.p.ghost[key] = True
+        I.p.ghost[key] = t     # pins the term (z3 reuses ids)
         I.p.assume(_SREAL(s) == t)
     return s
 
@@ -602,6 +602,11 @@ def contains(I, container, item):
         return wrap_bool(z3.Contains(I.term(container), I.term(item)))
     if isinstance(container, SSeq):
         return wrap_bool(z3.Contains(container.t, z3.Unit(elem_term(I, item, container.elem))))
+    if isinstance(container, SArr):
+        k = z3.Int(I.p.fresh_name('k_in'))
+        e = arr_get(I, container, k)
+        eqt = eq_term(I, e, item)
+        return wrap_bool(z3.Exists([k], z3.And(k >= 0, k < I.term(container.n), eqt)))
     if isinstance(container, SymRange):
         if container.step == 1:
             return wrap_bool(z3.And(I.term(container.lo) <= I.term(item), I.term(item) < I.term(container.hi)))
@@ -625,6 +630,29 @@ def elem_value(I, t, elem):
     if elem == 'dt':
         return libdt.dt_from_total(I, t)
     return Sym(elem, t)
+
+
+def arr_get(I, a, ti):
+    if a.elem == 'dt':
+        return SDateTime(Sym(INT, z3.Select(a.arr, ti)), Sym(INT, z3.Select(a.arr2, ti)))
+    return Sym(a.elem, z3.Select(a.arr, ti))
+
+
+def arr_store(I, a, ti, v):
+    """in-place element store (list identity is the SArr object)"""
+    if a.elem == 'dt':
+        v = I.resolve(v)
+        if not isinstance(v, SDateTime):
+            raise Unsupported('non-datetime stored into a datetime list')
+        a.arr = z3.Store(a.arr, ti, I.term(v.ord))
+        a.arr2 = z3.Store(a.arr2, ti, I.term(v.sec))
+    else:
+        a.arr = z3.Store(a.arr, ti, I.term(v, a.elem))
+
+
+def arr_append(I, a, v):
+    arr_store(I, a, I.term(a.n), v)
+    a.n = I.binop(ast.Add, a.n, 1)
 
 
 def seq_sort(elem):
@@ -703,6 +731,11 @@ def subscript(I, o, k):
     k = I.resolve(k)
     if isinstance(k, Unknown):
         return I.unknown('subscript by unknown')
+    if isinstance(o, (list, tuple)) and I.noforking and isinstance(k, Sym):
+        kinds = {('dt' if isinstance(x, SDateTime) else I.kind_of(x)) for x in o}
+        if len(kinds) == 1 and None not in kinds:
+            return subscript(I, seq_of_list(I, list(o), kinds.pop()), k)
+        raise Unsupported('symbolic index into a heterogeneous concrete list under a quantifier')
     if isinstance(o, (list, tuple)):
         if isinstance(k, (int,)) and not isinstance(k, bool):
             try:
@@ -744,13 +777,13 @@ def subscript(I, o, k):
         i = norm_index(I, k, Sym(INT, z3.Length(o.t)))
         return Sym(STR, z3.SubString(o.t, I.term(i), 1))
     if isinstance(o, SSeq):
-        i = norm_index(I, k, Sym(INT, z3.Length(o.t)))
+        i = k if I.noforking else norm_index(I, k, Sym(INT, z3.Length(o.t)))
         return elem_value(I, o.t[I.term(i)], o.elem)
     if isinstance(o, SArr):
-        i = norm_index(I, k, o.n)
-        return elem_value(I, z3.Select(o.arr, I.term(i)), o.elem)
+        i = k if I.noforking else norm_index(I, k, o.n)
+        return arr_get(I, o, I.term(i))
     if isinstance(o, SRecList):
-        i = norm_index(I, k, o.n)
+        i = k if I.noforking else norm_index(I, k, o.n)
         return RecView(o, i)
     r = libdt.subscript(I, o, k)
     if r is not NOTFOUND:
@@ -836,7 +869,8 @@ def store_subscript(I, o, k, v):
         return None
     if isinstance(o, SArr):
         i = norm_index(I, I.resolve(k), o.n)
-        return SArr(z3.Store(o.arr, I.term(i), elem_term(I, v, o.elem)), o.n, o.elem)
+        arr_store(I, o, I.term(i), v)
+        return None
     if isinstance(o, Unknown):
         return None
     raise Unsupported(f'store subscript on {type(o).__name__}')
